@@ -59,6 +59,7 @@ section .data
 global _rolling_hash2_run_until_dispatched
 global _rolling_hash2_run_until_mbinit
 %endif
+align 8
 _rolling_hash2_run_until_dispatched:
 	def_wrd      _rolling_hash2_run_until_mbinit
 
